@@ -107,10 +107,23 @@ def assign_tags(defs, seed):
     rnd = random.Random(seed)
     for d in defs:
         used = set()
+        # two-byte tags that differ only in their first byte (1Fxx / FFxx) must stay apart: a third of the structs with two TLV
+        # fields get such a pair
+        tl = [f for f in d["fields"] if f["attr"] == "tlv"]
+        pair = None
+        if len(tl) >= 2 and rnd.random() < 0.34:
+            lo = rnd.choice([0x00, 0x01, 0x40, 0xff, 0x10])
+            pair = {id(tl[0]): 0x1f00 + lo, id(tl[1]): 0xff00 + lo}
+            if rnd.random() < 0.5:
+                pair = {id(tl[0]): 0xff00 + lo, id(tl[1]): 0x1f00 + lo}
         for f in d["fields"]:
             if f["attr"] == "pos":
                 continue
             pool = BMP_POOL if f["attr"] == "bmp" else TLV_POOL
+            if pair and id(f) in pair and not (f["ty"] == "N1" and pair[id(f)] == 0x1f10):
+                used.add(pair[id(f)])
+                f["tag"] = pair[id(f)]
+                continue
             for _ in range(100):
                 t = rnd.choice(pool)
                 # nested structs N1 (tags 41, 1F10) must stay distinguishable from the parent's tags when they leak
